@@ -503,7 +503,7 @@ static json exec_op(Regs &R, const OpSpec &o) {
 static const char *OPS[] = {"set_ui", "set_ui", "set", "add", "add", "add_ui", "sub", "sub", "sub_ui", "mul", "mul", "mul_ui", "div", "div", "div_ui",
 	"mod", "mod", "mod_ui", "neg", "abs", "mul2exp", "div2exp", "powm", "powm_ui", "cmp", "obs"};
 static void rec_big(int tier) {
-	int nexec = tier ? 600 : 60, len = tier ? 60 : 40;
+	int nexec = tier ? 600 : 40, len = tier ? 60 : 40;
 	for (int x = 0; x < nexec; x++) {
 		reset_ev("big", x);
 		Regs R;
@@ -548,7 +548,7 @@ static long rand_prime(long lo, long hi) {
 	return x.l();
 }
 static void rec_rpow(int tier) {
-	int n = tier ? 4000 : 500;
+	int n = tier ? 4000 : 300;
 	tabs_init();
 	for (int x = 0; x < n; x++) {
 		if (x % 50 == 0) reset_ev("rpow", x / 50);
@@ -577,7 +577,7 @@ static void rec_rpow(int tier) {
 	}
 }
 static void rec_rsq(int tier) {
-	int n = tier ? 1500 : 200;
+	int n = tier ? 1500 : 150;
 	for (int x = 0; x < n; x++) {
 		if (x % 50 == 0) reset_ev("rsq", x / 50);
 		long p = rand_prime(2, 46000), q = rand_prime(2, 46000);
